@@ -180,12 +180,12 @@ example : ∃ (cb : PyGen.coder.Coder.process_element_descriptor.Callbacks Nat N
     non-negative id, every corresponding state, and corresponding callbacks. -/
 theorem C01_src_process_members_step {V B : Type} (φ : PyGen.coder.Descr → Elem)
     (A : PyData PyGen.coder.Descr V → B → StData → Prop)
-    (cb : PyGen.coder.Coder.process_members.Callbacks PyGen.coder.Descr V B) (P : Prims) (hcb : CbCorrM φ A cb P)
+    (cb : PyGen.coder.Coder.process_members.Callbacks PyGen.coder.Descr V B) (P : Prims) (hcb : CbCorrM (fun _ => True) φ A cb P)
     (x : PyGen.coder.Descr) (hx : 0 ≤ PyGen.coder.Descr.id x)
     (v : PyGen.coder.Coder.process_members.Locals PyGen.coder.Descr V B) (s : St)
     (h : AbsSt φ A v.state v.bit_operator s) :
     CorrL φ A (PyGen.coder.Coder.process_members.body cb v x) (walk1 P (descOf x) s) :=
-  body_corr φ A cb P hcb x hx v s h
+  body_corr (fun _ => True) φ A cb P hcb x trivial hx v s h
 
 /-- **The generated `process_members` is the model's `walkList`** on the list of members — ONE LEVEL: what the loop
     does with a fixed replication, a delayed replication or a sequence is the callback's business (`CbCorrM.fixed`,
@@ -199,20 +199,20 @@ theorem C01_src_process_members_step {V B : Type} (φ : PyGen.coder.Descr → El
     this theorem. -/
 theorem C01_src_process_members_partial {V B : Type} (φ : PyGen.coder.Descr → Elem)
     (A : PyData PyGen.coder.Descr V → B → StData → Prop)
-    (cb : PyGen.coder.Coder.process_members.Callbacks PyGen.coder.Descr V B) (P : Prims) (hcb : CbCorrM φ A cb P)
+    (cb : PyGen.coder.Coder.process_members.Callbacks PyGen.coder.Descr V B) (P : Prims) (hcb : CbCorrM (fun _ => True) φ A cb P)
     (ms : List PyGen.coder.Descr) (hms : ∀ m ∈ ms, 0 ≤ PyGen.coder.Descr.id m)
     (ps : PyGen.coder.CoderState.Self PyGen.coder.Descr V) (b : B) (s : St) (h : AbsSt φ A ps b s) :
     Corr φ A (PyGen.coder.Coder.process_members cb ps b ms) (walkList P (ms.map descOf) s) :=
-  members_core φ A cb P hcb ms hms ps b s h
+  members_core (fun _ => True) φ A cb P hcb ms (fun m hm => ⟨trivial, hms m hm⟩) ps b s h
 
 /-- `CbCorrM` is satisfiable — shown here only with the empty data relation (every field is then vacuous); the intended
     instance are the generated methods themselves, which is what the missing induction would establish. -/
-example : CbCorrM (V := Nat) (B := Nat) (fun _ => default) (fun _ _ _ => False)
+example : CbCorrM (V := Nat) (B := Nat) (fun _ => True) (fun _ => default) (fun _ _ _ => False)
     ⟨fun _ _ _ => .error .typeError, fun _ _ _ => .error .typeError, fun _ _ _ => .error .typeError,
      fun _ _ _ => .error .typeError, fun _ _ _ => .error .typeError, fun _ _ _ => .error .typeError,
      fun _ _ _ => .error .typeError, fun _ _ _ => .error .typeError⟩ failPrims :=
-  ⟨fun _ _ _ _ _ h => h.2.2.elim, fun _ _ _ _ h => h.2.2.elim, fun _ _ _ _ h => h.2.2.elim, fun _ _ _ _ h => h.2.2.elim,
-   fun _ _ _ _ h => h.2.2.elim, fun _ _ _ _ h => h.2.2.elim, fun _ _ _ _ h => h.2.2.elim, fun _ _ _ _ h => h.2.2.elim⟩
+  ⟨fun _ _ _ _ _ _ h => h.2.2.elim, fun _ _ _ _ _ h => h.2.2.elim, fun _ _ _ _ _ h => h.2.2.elim, fun _ _ _ _ _ h => h.2.2.elim,
+   fun _ _ _ _ _ h => h.2.2.elim, fun _ _ _ _ _ h => h.2.2.elim, fun _ _ _ _ _ h => h.2.2.elim, fun _ _ _ _ _ h => h.2.2.elim⟩
 
 /-- a concrete run of the generated loop: with a 221 count of 1 in force, an element of class 12 is skipped and the
     count runs down (no callback is called) -/
